@@ -1,4 +1,5 @@
 import MpfVerif.Lemmas.Delay
+import MpfVerif.Lemmas.TimerDevice
 /-!
 # C13 — Delays and periodic timers fire exactly when promised, or never
 
@@ -6,7 +7,8 @@ Property theorems about `Model/Delay.lean` (DelayManager + PeriodicTask), the mo
 against the real code.  All statements are over **every** program table `P` (what callbacks do: re-add, remove,
 run_now, clear, start/cancel periodic tasks …), **every** op sequence (`Op.cmd` calls at any instant, `Op.to` time steps,
 `Op.fire`/`Op.pfire` = the loop's choice among due timers, i.e. every schedule) and every reachable state.
-Timer devices (`timer.py`) and `Mode.stop` are not modelled; the harness checks them with an executable oracle only.
+The Timer device (`timer.py`) has its own model (`Model/TimerDevice.lean`, second half of this file); `Mode.stop` is
+not modelled (harness oracle only).
 -/
 namespace MpfVerif.C13
 open MpfVerif.Delay
@@ -199,4 +201,193 @@ example : (run demoP init [.cmd (.add 2 0 1 1), .cmd (.add 2 1 2 2), .cmd (.add 
 example : run demoP init [.cmd (.add 2 0 0 1), .to 3] = none ∧
     run demoP init [.cmd (.add 2 0 0 1), .cmd (.remove 0), .to 2, .fire 0] = none := by decide
 
+
+/-! # The Timer device (`Model/TimerDevice.lean`)
+
+All statements hold in every state reachable from a freshly loaded timer (`TimerDevice.init`) by any sequence of
+start/stop/pause/add/subtract/jump/reset/restart/set_tick_interval/change_tick_interval calls, time steps, runs of the
+system timer and of the pause delay (`Timer.reachable`). -/
+
 end MpfVerif.C13
+
+namespace MpfVerif.C13.Timer
+open MpfVerif.TimerDevice
+
+/-- reachable states of a timer with configuration `c` and initial tick interval `iv` -/
+def reachable (c : Cfg) (iv : Nat) (s : T) : Prop := ∃ ops tr, run c (init c iv) ops = some (s, tr)
+
+theorem reachable_inv {c : Cfg} {iv : Nat} {s : T} (h : reachable c iv s) : Inv c s := by
+  obtain ⟨ops, tr, h⟩ := h
+  exact run_inv c ops _ (s, tr) (init_inv c iv) h
+
+/-- **no_tick_unless_running.**  (a) Whatever the operation, a `tick` event is only ever posted by a timer that is
+running after that operation, carries its current count, and that count is not at/past the end value.  (b) The system
+timer (`Op.clock`) produces anything only while the timer is running.  (c) A timer that is not running and has no
+timed pause pending (stopped, paused without time, completed) stays silent for ever while only time passes: no event at
+all, whatever the clock does. -/
+theorem no_tick_unless_running (c : Cfg) (iv : Nat) (s : T) (hs : reachable c iv s) :
+    (∀ op r, step c s op = some r → ∀ k, (⟨.tick, k⟩ : Obs) ∈ r.2 →
+        r.1.running = true ∧ r.1.ticks = k ∧ done c k = false) ∧
+    (∀ r, step c s .clock = some r → s.running = true) ∧
+    (s.running = false → s.resume = none → ∀ ops r, (∀ op ∈ ops, op = .clock ∨ ∃ t, op = .to t) →
+        run c s ops = some r → r.2 = [] ∧ r.1.running = false ∧ r.1.resume = none) := by
+  have i := reachable_inv hs
+  refine ⟨fun op r h k hk => (step_facts c s op r i h).2 k hk, ?_, ?_⟩
+  · intro r h
+    simp only [step] at h
+    cases ha : s.arm with
+    | none => simp [ha] at h
+    | some a =>
+      simp only [ha] at h
+      split at h
+      · rename_i hc; exact hc.1
+      · cases h
+  · intro hrun hres ops
+    clear i hs
+    induction ops generalizing s with
+    | nil => intro r _ h; simp [run] at h; subst h; exact ⟨rfl, hrun, hres⟩
+    | cons op ops ih =>
+      intro r hops h
+      obtain ⟨r1, r2, h1, h2, rfl⟩ := run_cons h
+      have key : r1.2 = [] ∧ r1.1.running = false ∧ r1.1.resume = none := by
+        rcases hops op (by simp) with e | ⟨t, e⟩
+        · subst e
+          simp only [step] at h1
+          cases ha : s.arm with
+          | none => simp [ha] at h1
+          | some a =>
+            simp only [ha] at h1
+            split at h1
+            · rename_i hc; rw [hrun] at hc; simp at hc
+            · cases h1
+        · subst e
+          simp only [step] at h1
+          split at h1
+          · injection h1 with h1; subst h1; exact ⟨rfl, hrun, hres⟩
+          · cases h1
+      obtain ⟨k1, k2, k3⟩ := key
+      obtain ⟨a1, a2, a3⟩ := ih r1.1 k2 k3 r2 (fun o ho => hops o (by simp [ho])) h2
+      exact ⟨by simp [k1, a1], a2, a3⟩
+
+/-- **ticks_one_interval_apart.**  When the system timer runs, it is exactly one tick interval after it was armed or
+last ran (`arm`): never early, never late; and if the timer is still running afterwards the next run is again exactly
+one interval later (`arm` becomes the present instant) — so consecutive clock ticks are exactly `iv` apart and the
+first one is `iv` after the (re)start, jump or interval change that armed the timer. -/
+theorem ticks_one_interval_apart (c : Cfg) (iv : Nat) (s : T) (hs : reachable c iv s) (r : T × List Obs)
+    (h : step c s .clock = some r) :
+    ∃ a, s.arm = some a ∧ s.now = a + s.iv ∧ (r.1.running = true → r.1.arm = some s.now ∧ r.1.now = s.now) := by
+  have i := reachable_inv hs
+  simp only [step] at h
+  cases ha : s.arm with
+  | none => simp [ha] at h
+  | some a =>
+    simp only [ha] at h
+    split at h
+    · rename_i hc
+      have hnow : s.now = a + s.iv := Nat.le_antisymm (i.arm_ge hc.1 a ha) hc.2
+      refine ⟨a, rfl, hnow, ?_⟩
+      split at h
+      · rename_i hd
+        injection h with h; subst h
+        intro hrun
+        by_cases hr : c.roc = true
+        · by_cases hd2 : done c (clip c c.start) = true
+          · simp [doComplete, hr, hd2, doStop] at hrun
+          · simp [doComplete, hr, hd2, doStop]
+        · simp [doComplete, hr, doStop] at hrun
+      · injection h with h; subst h
+        intro _
+        exact ⟨by simp [hnow], rfl⟩
+    · cases h
+
+/-- **timer_completes_iff_end_value.**  For every operation: (a) a `complete` event is posted only with the count
+at/past the end value; (b) afterwards a running timer is never at/past its end value — reaching it always completes;
+(c) the operations that change the count (`add`, `subtract`, `jump`, a clock tick) post `complete` with the new count
+whenever the new count is at/past the end value; (d) after `timer_complete` the timer has stopped, or — with
+`restart_on_complete` and a start value that is not itself at the end — is running again from the (clipped) start value. -/
+theorem timer_completes_iff_end_value (c : Cfg) (iv : Nat) (s : T) (hs : reachable c iv s) :
+    (∀ op r, step c s op = some r →
+        (∀ k, (⟨.complete, k⟩ : Obs) ∈ r.2 → done c k = true) ∧ (r.1.running = true → done c r.1.ticks = false)) ∧
+    (∀ v r, step c s (.add v) = some r → done c (clip c (s.ticks + v)) = true →
+        (⟨.complete, clip c (s.ticks + v)⟩ : Obs) ∈ r.2) ∧
+    (∀ v r, step c s (.sub v) = some r → done c (s.ticks - v) = true → (⟨.complete, s.ticks - v⟩ : Obs) ∈ r.2) ∧
+    (∀ v r, step c s (.jump v) = some r → done c (clip c v) = true → (⟨.complete, clip c v⟩ : Obs) ∈ r.2) ∧
+    (∀ r, step c s .clock = some r → done c (bump c s.ticks) = true → (⟨.complete, bump c s.ticks⟩ : Obs) ∈ r.2) ∧
+    (∀ t : T, done c t.ticks = true →
+        (c.roc = false → (doComplete c t).1.running = false) ∧
+        (c.roc = true → done c (clip c c.start) = false →
+          (doComplete c t).1.running = true ∧ (doComplete c t).1.ticks = clip c c.start)) := by
+  have i := reachable_inv hs
+  refine ⟨?_, ?_, ?_, ?_, ?_, ?_⟩
+  · intro op r h
+    exact ⟨(step_facts c s op r i h).1, (step_inv c s op r i h).run_notdone⟩
+  · intro v r h hd
+    simp only [step] at h; injection h with h; subst h
+    exact List.mem_cons_of_mem _ ((checkDone_facts c _).2.1 hd)
+  · intro v r h hd
+    simp only [step] at h; injection h with h; subst h
+    exact List.mem_cons_of_mem _ ((checkDone_facts c _).2.1 hd)
+  · intro v r h hd
+    simp only [step] at h; injection h with h; subst h
+    exact (checkDone_facts c _).2.1 hd
+  · intro r h hd
+    simp only [step] at h
+    cases ha : s.arm with
+    | none => simp [ha] at h
+    | some a =>
+      simp only [ha] at h
+      split at h
+      · simp only [hd, if_true] at h
+        injection h with h; subst h
+        exact (doComplete_facts c _ hd).2.1
+      · cases h
+  · intro t hd
+    exact ⟨(doComplete_facts c t hd).2.2.1, (doComplete_facts c t hd).2.2.2⟩
+
+/-- **pause_resumes_once.**  (a) In every reachable state a running timer has no pause pending, and a pending pause end
+is not overdue.  (b) `pause(ms)` with `ms > 0` leaves the timer not running with the resume scheduled at exactly
+`now + ms`.  (c) When the pause delay runs it is exactly at that instant, the timer is started (unless its count is at
+the end value) and no resume remains: it happens once.  (d) `stop` cancels the pending resume, and without a pending
+resume the pause delay cannot run. -/
+theorem pause_resumes_once (c : Cfg) (iv : Nat) (s : T) (hs : reachable c iv s) :
+    ((s.running = true → s.resume = none) ∧ (∀ r, s.resume = some r → s.now ≤ r)) ∧
+    (∀ ms r, ms ≠ 0 → step c s (.pause ms) = some r → r.1.running = false ∧ r.1.resume = some (s.now + ms)) ∧
+    (∀ r, step c s .resumeFire = some r → s.resume = some s.now ∧ r.1.resume = none ∧
+        (done c s.ticks = false → r.1.running = true ∧ (⟨.started, s.ticks⟩ : Obs) ∈ r.2)) ∧
+    (∀ r, step c s .stop = some r → r.1.resume = none ∧ r.1.running = false ∧ step c r.1 .resumeFire = none) := by
+  have i := reachable_inv hs
+  refine ⟨⟨i.run_noresume, i.resume_ge⟩, ?_, ?_, ?_⟩
+  · intro ms r hms h
+    simp only [step] at h; injection h with h; subst h
+    simp [hms]
+  · intro r h
+    simp only [step] at h
+    cases hr : s.resume with
+    | none => simp [hr] at h
+    | some t =>
+      simp only [hr] at h
+      split at h
+      · rename_i hle
+        have : t = s.now := Nat.le_antisymm hle (i.resume_ge t hr)
+        subst this
+        injection h with h; subst h
+        have hnr : s.running = false := by
+          cases hb : s.running with
+          | false => rfl
+          | true => have := i.run_noresume hb; rw [hr] at this; cases this
+        refine ⟨rfl, ?_, ?_⟩
+        · simp only [doStart, hnr]
+          by_cases hd : done c s.ticks = true
+          · simp only [hd, if_true]
+            by_cases hroc : c.roc = true
+            · by_cases hd2 : done c (clip c c.start) = true <;> simp [doComplete, hroc, hd2, doStop]
+            · simp [doComplete, hroc, doStop]
+          · simp [hd]
+        · intro hd
+          simp [doStart, hnr, hd]
+      · cases h
+  · intro r h
+    simp only [step] at h; injection h with h; subst h
+    simp [doStop, step]
+
+end MpfVerif.C13.Timer
